@@ -478,3 +478,4 @@ MANIFEST = {
     "ref": "DESIGN.md §4 C16",
 }
 MANIFEST["text"] += ' Gap arguments: clip with a None bound, nan_to_num with posinf/neginf/nan replacement values.'
+MANIFEST["text"] += ' Operator forms (+ - * / // % ** < == >=, unary) over 10x10 unit pairs (multiplicative, offset, delta, dimensionless) in default and autoconvert mode leave both operand arrays and their units untouched.'
